@@ -16,7 +16,7 @@ Ties
 Verdicts: a failing input is always decided by the specification side (exact recomputation in Python ints / Fractions of
 what the property demands, or a numeric deviation >= 1e-8); "model != code" alone is reported as no-failing-input-found.
 """
-import itertools, math, functools, contextlib
+import itertools, math, functools, contextlib, traceback
 from fractions import Fraction
 import numpy
 from .common import Infra
@@ -24,6 +24,7 @@ from .common import Infra
 TOL = 1e-8          # a deviation >= TOL is a failing input
 TIGHT = 1e-10       # what we expect on the unchanged tree (reported in the evidence when exceeded)
 KNOWN_SINGLE = 'int_or_vec:single-element-array-not-unique'
+KNOWN_SEAM = 'basis_spline:periodic-seam-multiplicity-knot-vector-too-short'
 
 
 def ints(a):
@@ -177,7 +178,7 @@ def gen_dim(rng, maxn=4, maxp=4, allow_bad=True):
         if per and rng.random() < .8: full[-1] = full[0]
         if rng.random() < .25: full[0] = full[-1] = p+1
         m = full; tag += '+mults'
-        if n % 2 == 0 and rng.random() < .25:     # coarse vector, refined by interleaving with p-c
+        if n % 2 == 0 and rng.random() < .5:     # coarse vector, refined by interleaving with p-c
             k = n
             while k % 2 == 0 and k > 1 and rng.random() < .7: k //= 2
             m = full[:k+1]
@@ -269,19 +270,73 @@ def inverse_violation(dofs, supp, ndofs):
     return None
 
 
+def seam_knots_too_short(p, n, m, isper):
+    """root cause predicate of KNOWN_SEAM: the periodic unrolling loop `while m[n:].sum() < p - m[0] + 2` of basis_spline stops
+    before p knots are available behind the last element"""
+    if not isper: return False
+    period = sum(m[:n]); tail = 0
+    while tail < p - m[0] + 2:
+        tail = 2*tail + period
+    return tail < p
+
+
 def first_event(ds, vs=False):
-    """what the real code does first on this request, dimension by dimension: 'hang' (never terminates), 'raise', or 'ok'"""
+    """what the real code does first on this request, dimension by dimension: 'hang' (never terminates), 'raise', 'ok', or
+    'skip' (a hang is preceded by a dimension whose outcome depends on the KNOWN_SEAM finding: do not run, do not compare)"""
+    uncertain = False
     for d in ds:
         p, n, cont, m = d[:4]
+        per = (not vs) and d[4]
         c_ = cont + p if cont < 0 else cont
         if not -1 <= c_ < p: return 'raise'
         if m is not None:
             if not m or min(m) <= 0 or max(m) > p+1: return 'raise'
-            if len(m) == 1 and n+1 > 1: return 'hang'
-            k = len(m)
-            while k < n+1: k = 2*k-1
-            if k != n+1: return 'raise'
+            if len(m) == 1 and n+1 > 1: return 'skip' if uncertain else 'hang'
+        mm = py_resolve_mults(p, n, cont, m)
+        if mm is None: return 'raise'
+        if vs:
+            if m is None: mm = [p+1] + mm[1:-1] + [p+1]
+            if sum(mm) - p - 1 <= 0: return 'raise'
+        elif per and not (mm[0] == mm[n] == p+1):
+            if mm[0] != mm[n]: return 'raise'
+            if seam_knots_too_short(p, n, mm, True): uncertain = True
     return 'ok'
+
+
+def spline_case_checks(c, poly, topo, basis, ds, shape, spec_m, oracle, kvs, removedofs):
+    """spec-oracle checks (python ints + numeric) of one accepted basis_spline call"""
+    mdofs = msupp = None
+    parent = basis._parent if removedofs else basis
+    indices = canon(basis._indices) if removedofs else None
+    dofs, supp = real_basis_tables(parent)
+    ndofs_want = functools.reduce(lambda x, y: x*y, [o[1] for o in oracle], 1)
+    bad = None
+    if parent.ndofs != ndofs_want: bad = ('ndofs', 'number of dofs %d differs from the B-spline space dimension %d' % (parent.ndofs, ndofs_want))
+    if not bad:
+        why = inverse_violation(dofs, supp, parent.ndofs)
+        if why: bad = ('inverse', 'get_support is not the inverse of get_dofs: ' + why)
+    if not bad:
+        # dofs per element: tensor product of p+1 consecutive (mod nd) functions starting at the oracle offsets
+        for e, mi in enumerate(itertools.product(*[range(n) for n in shape])):
+            per_dim = [[(o[0][ei] + r) % o[1] for r in range(d[0]+1)] for ei, d, o in zip(mi, ds, oracle)]
+            want = [functools.reduce(lambda acc, x: acc*x[1] + x[0], zip(t, [o[1] for o in oracle]), 0) for t in itertools.product(*per_dim)]
+            if dofs[e] != want:
+                bad = ('dofs', 'element %d lists dofs %s, the B-splines supported there are %s' % (e, dofs[e], want)); break
+            co = parent.get_coefficients(e)
+            if co.shape[0] != len(want):
+                bad = ('coeff-shape', 'element %d: %d coefficient rows for %d dofs' % (e, co.shape[0], len(want))); break
+    # numeric: evaluation = scatter(polyval(coefficients)), partition of unity, values versus Cox-de Boor (queued)
+    if not bad:
+        bad = numeric_basis_checks(c, poly, topo, basis, pou=removedofs is None, tag='spline')
+    if not bad and removedofs is None:
+        bad = spline_continuity_violation(ds, spec_m, oracle, kvs, parent, shape)
+    if not bad and removedofs:
+        mdofs, msupp = real_basis_tables(basis)
+        why = inverse_violation(mdofs, msupp, basis.ndofs)
+        want_idx = masked_indices_oracle(removedofs, [o[1] for o in oracle])
+        if why: bad = ('removedofs-inverse', 'with removedofs: get_support is not the inverse of get_dofs: ' + why)
+        elif indices != want_idx: bad = ('removedofs-indices', 'with removedofs %s the kept dofs are %s, expected %s' % (removedofs, indices, want_idx))
+    return bad, parent, indices, dofs, supp, mdofs, msupp
 
 
 def stream_spline(c, mesh, function, poly, N):
@@ -289,7 +344,8 @@ def stream_spline(c, mesh, function, poly, N):
     corpus = [[(2, 3, -1, None, False)], [(2, 3, -1, None, True)], [(1, 2, -1, None, False), (2, 2, 0, None, True)],
               [(3, 2, -1, [3, 1, 3], True)], [(3, 3, -1, [3, 2, 1, 3], True)], [(2, 3, -1, [3, 1, 2, 3], True)], [(2, 1, -1, None, True)],
               [(0, 3, -1, None, False)], [(0, 2, -1, None, True)], [(2, 4, -1, [1, 3, 1], False)], [(4, 2, 1, None, False)], [(1, 1, 0, None, True)],
-              [(3, 2, -1, None, True)]]
+              [(3, 2, -1, None, True)], [(3, 4, 0, [4, 1, 4], False)], [(2, 4, -2, [1, 2, 1], True)], [(3, 4, 1, [2, 3], False)],
+              [(3, 2, 0, None, False), (2, 2, -1, None, True)], [(2, 2, -1, None, True), (1, 3, -1, None, True)], [(4, 1, -1, [3, 3], True)]]
     cases += [('corpus', ds) for ds in corpus]
     for _ in range(N):
         nd = c.rng.choice([1, 1, 1, 2, 2, 3] if c.tier == 'thorough' else [1, 1, 1, 2, 2])
@@ -301,7 +357,10 @@ def stream_spline(c, mesh, function, poly, N):
     for tag, ds in cases:
         replay = dict(op='basis_spline', dims=[dict(degree=p, nelems=n, continuity=cont, knotmultiplicities=m, periodic=per) for p, n, cont, m, per in ds])
         c.count('spline:' + (tag if tag.startswith(('ok', 'corpus')) else 'rejected-kind'))
-        if first_event(ds) == 'hang':
+        ev = first_event(ds)
+        if ev == 'skip':
+            c.count('spline:skipped (hang after a dimension affected by a known finding)'); continue
+        if ev == 'hang':
             c.count('spline:hang (real code not run: it would not terminate)'); c.case(('spline', repr(ds)), nontrivial=False)
             records.append((ds, replay, ('hang',))); continue
         shape = [n for p, n, cont, m, per in ds]
@@ -343,7 +402,9 @@ def stream_spline(c, mesh, function, poly, N):
         if basis is None:
             c.count('spline-real:rejected')
             if spec_ok:
-                c.failing_input('basis_spline-rejects-valid', 'basis_spline raises %s for an admissible degree/continuity/multiplicity/periodic combination' % real_err, replay); ndis += 1
+                sig = KNOWN_SEAM if any(seam_knots_too_short(d[0], d[1], m, o[2]) for d, m, o in zip(ds, spec_m, oracle)) else 'basis_spline-rejects-valid'
+                c.failing_input(sig, 'basis_spline raises %s for an admissible degree/continuity/multiplicity/periodic combination' % real_err, replay)
+                ndis += not c.match_known(sig)
             else:
                 records.append((ds, replay, ('rejected',)))
             continue
@@ -353,36 +414,10 @@ def stream_spline(c, mesh, function, poly, N):
             # (asserts are the only guard); the model must agree though
             records.append((ds, replay, ('accepted-unspecified',)))
             continue
-        parent = basis._parent if removedofs else basis
-        indices = canon(basis._indices) if removedofs else None
-        dofs, supp = real_basis_tables(parent)
-        ndofs_want = functools.reduce(lambda x, y: x*y, [o[1] for o in oracle], 1)
-        bad = None
-        if parent.ndofs != ndofs_want: bad = ('ndofs', 'number of dofs %d differs from the B-spline space dimension %d' % (parent.ndofs, ndofs_want))
-        if not bad:
-            why = inverse_violation(dofs, supp, parent.ndofs)
-            if why: bad = ('inverse', 'get_support is not the inverse of get_dofs: ' + why)
-        if not bad:
-            # dofs per element: tensor product of p+1 consecutive (mod nd) functions starting at the oracle offsets
-            for e, mi in enumerate(itertools.product(*[range(n) for n in shape])):
-                per_dim = [[(o[0][ei] + r) % o[1] for r in range(d[0]+1)] for ei, d, o in zip(mi, ds, oracle)]
-                want = [functools.reduce(lambda acc, x: acc*x[1] + x[0], zip(t, [o[1] for o in oracle]), 0) for t in itertools.product(*per_dim)]
-                if dofs[e] != want:
-                    bad = ('dofs', 'element %d lists dofs %s, the B-splines supported there are %s' % (e, dofs[e], want)); break
-                co = parent.get_coefficients(e)
-                if co.shape[0] != len(want):
-                    bad = ('coeff-shape', 'element %d: %d coefficient rows for %d dofs' % (e, co.shape[0], len(want))); break
-        # numeric: evaluation = scatter(polyval(coefficients)), partition of unity, values versus Cox-de Boor (queued)
-        if not bad:
-            bad = numeric_basis_checks(c, poly, topo, basis, pou=removedofs is None, tag='spline')
-        if not bad and removedofs is None:
-            bad = spline_continuity_violation(ds, spec_m, oracle, kvs, parent, shape)
-        if not bad and removedofs:
-            mdofs, msupp = real_basis_tables(basis)
-            why = inverse_violation(mdofs, msupp, basis.ndofs)
-            want_idx = masked_indices_oracle(removedofs, [o[1] for o in oracle])
-            if why: bad = ('removedofs-inverse', 'with removedofs: get_support is not the inverse of get_dofs: ' + why)
-            elif indices != want_idx: bad = ('removedofs-indices', 'with removedofs %s the kept dofs are %s, expected %s' % (removedofs, indices, want_idx))
+        try:
+            bad, parent, indices, dofs, supp, mdofs, msupp = spline_case_checks(c, poly, topo, basis, ds, shape, spec_m, oracle, kvs, removedofs)
+        except Exception as exc:
+            bad = ('exception', 'querying / evaluating the basis raises %s: %s' % (type(exc).__name__, str(exc)[:200])); replay['exception'] = traceback.format_exc()[-1500:]
         if bad:
             ndis += 1
             c.failing_input('basis_spline:' + bad[0], 'structured spline basis: ' + bad[1], replay); continue
@@ -516,15 +551,26 @@ def bspline_value_lines(reqs):
                 x = kv[mi[idim]] + pt[idim]*(kv[mi[idim]+1]-kv[mi[idim]])
                 lines.append('bspline|%d|%s|%s' % (d[0], ' '.join(frac_str(t) for t in T), frac_str(x)))
                 index.append((k, ip, idim))
+    # the knot vector the theorem `spline_element_pou` speaks about (Lean `knotVector (openMults p n m) k`) is the one used here
+    for k, (ds, oracle, kvs, topo, basis, e, mi, pts, Ts, replay) in enumerate(reqs):
+        for idim, (d, T, kv, o) in enumerate(zip(ds, Ts, kvs, oracle)):
+            if not o[2]:
+                mm = py_resolve_mults(d[0], d[1], d[2], d[3])
+                lines.append('knots|%d|%d|%s|%s' % (d[0], d[1], ints(mm), ' '.join(frac_str(t) for t in kv)))
+                index.append(('knots', k, idim))
     return lines, index
 
 
 def bspline_value_finish(c, reqs, index, ans):
     """(V) real spline values at dyadic points versus Cox-de Boor over Q evaluated by the Lean model"""
-    vals = {}
-    for (k, ip, idim), a in zip(index, ans):
+    vals = {}; nknots = 0
+    for key, a in zip(index, ans):
         if not a.startswith('ok|'): raise Infra('bspline request refused: ' + a)
-        vals[k, ip, idim] = parse_fracs(a[3:])
+        if key[0] == 'knots':
+            if parse_fracs(a[3:]) != reqs[key[1]][8][key[2]]: raise Infra('harness knot vector differs from the model knotVector/openMults')
+            nknots += 1; continue
+        vals[key] = parse_fracs(a[3:])
+    index = [key for key in index if key[0] != 'knots']
     ndis = 0
     for k, (ds, oracle, kvs, topo, basis, e, mi, pts, Ts, replay) in enumerate(reqs):
         got = topo._sample(numpy.array([e]*len(pts)), numpy.array([[float(x) for x in pt] for pt in pts])).eval(basis)
@@ -566,7 +612,7 @@ def stream_vs(c, mesh, poly, N):
     ndis = 0; vlines = []; vmeta = []; records = []
     for k, ds in enumerate(cases):
         replay = dict(op='_basis_spline', dims=[dict(degree=p, nelems=n, continuity=cont, knotmultiplicities=m) for p, n, cont, m in ds])
-        if first_event(ds) == 'hang':
+        if first_event(ds, vs=True) == 'hang':
             c.count('vs:hang-not-run'); records.append((ds, replay, ('hang',))); continue
         spec_m = [py_resolve_mults(p, n, cont, m) for p, n, cont, m in ds]
         spec_ok = all(m is not None for m in spec_m)
@@ -579,6 +625,8 @@ def stream_vs(c, mesh, poly, N):
             real_err = None
         except (AssertionError, ValueError, IndexError) as e:
             real_err = type(e).__name__
+        except Exception as e:
+            real_err = 'unexpected ' + type(e).__name__
         c.case(('vs', repr(ds)), nontrivial=real_err is None); c.count('vs:' + ('accepted' if real_err is None else 'rejected'))
         if real_err:
             if spec_ok:
@@ -623,10 +671,11 @@ def stream_vs(c, mesh, poly, N):
     for k, a in zip(index, ans[:len(lines)]): per_case.setdefault(k, []).append(a)
     for k, (ds, replay, exp) in enumerate(records):
         model = per_case[k]; replay = dict(replay, model=model)
+        firsterr = next((a for a in model if not a.startswith('ok')), None)    # the real code works dimension by dimension
         if exp[0] == 'hang':
-            ok = any(a == 'err|hang' for a in model)
+            ok = firsterr == 'err|hang'
         elif exp[0] == 'rejected':
-            ok = any(a.startswith('err') for a in model) and not any(a == 'err|hang' for a in model)
+            ok = firsterr is not None and firsterr.startswith('err') and firsterr != 'err|hang' 
         elif exp[0] == 'accepted-unspecified':
             ok = all(a.startswith('ok') for a in model)
         else:
@@ -682,8 +731,9 @@ def random_refine(rng, topo, rounds):
 
 
 class Entry:
-    def __init__(self, name, topo, geom, basis, pou, cont, polydeg, args):
+    def __init__(self, name, topo, geom, basis, pou, cont, polydeg, args, ndofs=None):
         self.name, self.topo, self.geom, self.basis, self.pou, self.cont, self.polydeg, self.args = name, topo, geom, basis, pou, cont, polydeg, args
+        self.ndofs = ndofs      # dimension of the advertised space where a closed formula exists
 
 
 def zoo(c, mods):
@@ -713,8 +763,13 @@ def zoo(c, mods):
                 single_per = any(shape[i] == 1 for i in periodic)
                 cont = {'std': 0, 'bernstein': 0, 'lagrange': 0, 'spline': p-1, 'discont': -1, 'legendre': -1}[btype]
                 if single_per and cont > 0: cont = 0            # a single periodic element only closes C^0 (as the repo's tests note)
+                per1 = lambda i: i in periodic
+                ndofs = {'std': lambda: math.prod(n*p + (0 if per1(i) else 1) for i, n in enumerate(shape)) if p else None,
+                         'bernstein': lambda: math.prod(n*p + 1 for n in shape), 'lagrange': lambda: math.prod(n*p + 1 for n in shape),
+                         'spline': lambda: math.prod((n if per1(i) else n + p) for i, n in enumerate(shape)),
+                         'discont': lambda: math.prod(shape) * (p+1)**nd, 'legendre': lambda: shape[0]*(p+1)}[btype]()
                 e = Entry('%s%dd' % (btype, nd), topo, geom, basis, btype != 'legendre', cont, None if periodic else p,
-                          dict(shape=shape, periodic=periodic, btype=btype, degree=p))
+                          dict(shape=shape, periodic=periodic, btype=btype, degree=p), ndofs=ndofs)
                 e.single_per = single_per
                 return e
             add('structured-%s-%dd' % (btype, nd), thunk)
@@ -765,6 +820,24 @@ def zoo(c, mods):
                 return Entry(btype + '%dd' % nd, h, geom, basis, btype.startswith('th-'), cont, None if periodic else p,
                              dict(shape=shape, periodic=periodic, btype=btype, degree=p, nelems=len(h)))
             add('hierarchical-%s-%dd' % (btype, nd), thunk)
+    for kind in ('h-', 'th-'):
+        def thunk(kind=kind):
+            # nested refinement (three levels below the base in one place), as in the repo's own hierarchical test set-up
+            nd = rng.choice([1, 1, 2])
+            topo, geom, shape, periodic = structured(nd, False)
+            h = topo
+            for _ in range(3):
+                h = h.refined_by([len(h)-1] if rng.random() < .5 else [0])
+            btype = kind + rng.choice(['std', 'spline']); p = rng.randint(1, 3 if nd == 1 else 2)
+            return Entry(btype + '-deep%dd' % nd, h, geom, h.basis(btype, degree=p), btype.startswith('th-'), 0 if btype.endswith('std') else p-1, p,
+                         dict(shape=shape, btype=btype, degree=p, nelems=len(h)))
+        add('hierarchical-deep-' + kind.strip('-'), thunk)
+    for p in range(0, 6):
+        def thunk(p=p):
+            n = rng.randint(1, 3)
+            topo, geom = mesh.rectilinear([n])
+            return Entry('legendre-deg%d' % p, topo, geom, topo.basis('legendre', degree=p), False, -1 if n > 1 else None, p, dict(nelems=n, degree=p), ndofs=n*(p+1))
+        add('legendre-degree-%d' % p, thunk)
     def thunk():
         topo, geom = mesh.unitsquare(rng.randint(1, 2), rng.choice(['triangle', 'mixed']))
         h = random_refine(rng, topo, rng.randint(1, 2))
@@ -831,11 +904,11 @@ def zoo(c, mods):
             kw['continuity'] = rng.randint(0, p-1)
         basis = mp.basis(btype, degree=p, patchcontinuous=pc, **kw)
         return Entry('multipatch-%s-%s' % (layout, btype), mp, geom, basis, True, 0 if pc else None, p, dict(layout=layout, nelems=repr(nel), btype=btype, degree=p, patchcontinuous=pc, **kw))
-    add('multipatch', thunk)
+    add('multipatch', thunk); add('multipatch-b', thunk); add('multipatch-c', thunk)
 
     # ---- masked
     def thunk():
-        name, inner = rng.choice([o for o in out if not o[0].startswith(('masked', 'product'))])
+        name, inner = rng.choice([o for o in out if not o[0].startswith(('masked', 'product', 'partition'))])
         e = inner()
         if not isinstance(e.basis, function.Basis) or e.basis.ndofs == 0: return None
         n = e.basis.ndofs
@@ -849,7 +922,29 @@ def zoo(c, mods):
         basis = e.basis[idx]
         if not isinstance(basis, function.Basis): return None
         return Entry('masked(%s)' % e.name, e.topo, e.geom, basis, False, None, None, dict(parent=e.name, parent_args=e.args, index=repr(idx)))
-    add('masked', thunk)
+    add('masked', thunk); add('masked-b', thunk); add('masked-c', thunk)
+
+    # ---- discontinuous_at_partition_interfaces
+    def thunk():
+        name, inner = rng.choice([o for o in out if o[0].startswith(('structured-std', 'structured-spline', 'unitsquare-triangle-std', 'hierarchical-th-spline', 'hierarchical-h-std'))])
+        e = inner()
+        if not isinstance(e.basis, function.Basis) or e.basis.nelems == 0: return None
+        nparts = rng.randint(1, 3)
+        parts = [rng.randrange(nparts) for _ in range(e.basis.nelems)]
+        basis = e.basis.discontinuous_at_partition_interfaces(parts)
+        ent = Entry('partition(%s)' % e.name, e.topo, e.geom, basis, e.pou, None, None, dict(parent=e.name, parent_args=e.args, parts=parts))
+        parent = e.basis
+        def extra():
+            pairs = sorted(set((parts[el], d) for el in range(parent.nelems) for d in canon(parent.get_dofs(el))))
+            if basis.ndofs != len(pairs): return ('partition-ndofs', '%d functions for %d distinct (part, parent dof) pairs' % (basis.ndofs, len(pairs)))
+            for el in range(parent.nelems):
+                want = [pairs.index((parts[el], d)) for d in canon(parent.get_dofs(el))]
+                if canon(basis.get_dofs(el)) != want: return ('partition-dofs', 'element %d: dofs %s, expected %s (numbered by part, then parent dof)' % (el, canon(basis.get_dofs(el)), want))
+                if not numpy.array_equal(basis.get_coefficients(el), parent.get_coefficients(el)): return ('partition-coeffs', 'element %d: coefficients differ from the parent basis' % el)
+            return None
+        ent.extra_check = extra
+        return ent
+    add('partition', thunk)
 
     # ---- tensor products of bases on product topologies
     def thunk():
@@ -903,8 +998,8 @@ def continuity_violation(c, function, e):
         ifaces = e.topo.interfaces
         if len(ifaces) == 0: return None
         smpl = ifaces.sample('gauss', 2)
-    except (NotImplementedError, AttributeError, AssertionError) as exc:
-        c.count('continuity:interfaces-unavailable'); return None
+    except Exception as exc:     # building interfaces is another property's business (C10); continuity is then not checked here
+        c.count('continuity:interfaces-unavailable:' + type(exc).__name__); return None
     f = e.basis
     if e.cont < 0:
         J = smpl.eval(function.jump(f))
@@ -934,12 +1029,48 @@ def polyrepro_violation(c, e):
     V, x = smpl.eval([e.basis, e.geom])
     target = (x**e.polydeg).sum(-1)
     if V.shape[1] == 0: return None
+    if not numpy.isfinite(V).all(): return ('non-finite', 'the basis evaluates to non-finite values')
     sol, res, rank, sv = numpy.linalg.lstsq(V, target, rcond=None)
     err = float(abs(V @ sol - target).max())
     c.extra['max_polyrepro_dev'] = max(c.extra.get('max_polyrepro_dev', 0.), err)
     if err >= 1e-7 * max(1., float(abs(target).max())):
         return ('polynomial', 'x^%d is not in the span of the basis (residual %.3g)' % (e.polydeg, err))
     return None
+
+
+def zoo_entry_checks(c, function, poly, name, e, replay, pending):
+    """all spec-oracle checks of one zoo entry; returns (bad, skip)"""
+    bad = None
+    if isinstance(e.basis, function.Basis):
+        b = e.basis
+        c.count('zoo-class:' + type(b).__name__)
+        if b.nelems != len(e.topo): bad = ('nelems', 'basis.nelems %d != len(topo) %d' % (b.nelems, len(e.topo)))
+        if not bad and e.ndofs is not None and b.ndofs != e.ndofs:
+            bad = ('ndofs', 'the basis has %d functions, the space it advertises has dimension %d' % (b.ndofs, e.ndofs))
+        if not bad and isinstance(b, function.PrunedBasis) and canon(b._dofmap) != sorted(set(canon(b._dofmap))):
+            # root cause: parent.get_dofs(array of one element) is returned unsorted / with duplicates
+            c.failing_input(KNOWN_SINGLE, 'PrunedBasis._dofmap %s is not unique and increasing (parent.get_dofs of a single-element array)' % canon(b._dofmap), replay)
+            c.count('zoo:skipped-after-known-finding')
+            return None, ('known' if c.match_known(KNOWN_SINGLE) else 'violation')
+        if not bad:
+            dofs, supp = real_basis_tables(b)
+            why = inverse_violation(dofs, supp, b.ndofs)
+            if why: bad = ('inverse', 'get_support is not the inverse of get_dofs: ' + why)
+        if not bad:
+            why = union_violation(c, b, dofs, supp)
+            if why and why[0] == KNOWN_SINGLE:
+                c.failing_input(KNOWN_SINGLE, '%s: %s' % (name, why[1]), replay)
+            elif why: bad = why
+        if not bad:
+            bad = numeric_basis_checks(c, poly, e.topo, b, pou=e.pou, tag='convex')
+        if not bad:
+            pending.append((e, b, dofs, supp, replay))
+    else:
+        bad = product_violation(c, e)
+    if not bad and getattr(e, 'extra_check', None): bad = e.extra_check()
+    if not bad: bad = continuity_violation(c, function, e)
+    if not bad: bad = polyrepro_violation(c, e)
+    return bad, False
 
 
 def stream_zoo(c, mods, poly, rounds):
@@ -955,38 +1086,22 @@ def stream_zoo(c, mods, poly, rounds):
             except Exception as exc:
                 c.count('zoo-construction-raised:%s:%s' % (name, type(exc).__name__))
                 c.extra.setdefault('construction_errors', {}).setdefault(name, '%s: %s' % (type(exc).__name__, str(exc)[:200]))
+                ndis += 1; nexp += 1
+                c.failing_input('%s:construction-raises' % name.split('-')[0], '%s: constructing the topology / basis raises %s: %s' % (name, type(exc).__name__, str(exc)[:200]),
+                                dict(op='zoo', entry=name, rng_state=repr(state)[:200], exception=traceback.format_exc()[-1500:]))
                 continue
             if e is None: continue
             c.count('zoo:' + name)
             replay = dict(op='zoo', entry=name, detail=e.name, args=e.args)
             c.case(('zoo', name, repr(e.args)), nontrivial=True)
             c.sample(dict(entry=name, args=e.args, ndofs=int(e.basis.shape[0]), nelems=len(e.topo)), limit=6)
-            bad = None
-            if isinstance(e.basis, function.Basis):
-                b = e.basis
-                c.count('zoo-class:' + type(b).__name__)
-                if b.nelems != len(e.topo): bad = ('nelems', 'basis.nelems %d != len(topo) %d' % (b.nelems, len(e.topo)))
-                if not bad and isinstance(b, function.PrunedBasis) and canon(b._dofmap) != sorted(set(canon(b._dofmap))):
-                    # root cause: parent.get_dofs(array of one element) is returned unsorted / with duplicates
-                    c.failing_input(KNOWN_SINGLE, 'PrunedBasis._dofmap %s is not unique and increasing (parent.get_dofs of a single-element array)' % canon(b._dofmap), replay)
-                    c.count('zoo:skipped-after-known-finding'); ndis += not c.match_known(KNOWN_SINGLE); continue
-                if not bad:
-                    dofs, supp = real_basis_tables(b)
-                    why = inverse_violation(dofs, supp, b.ndofs)
-                    if why: bad = ('inverse', 'get_support is not the inverse of get_dofs: ' + why)
-                if not bad:
-                    why = union_violation(c, b, dofs, supp)
-                    if why and why[0] == KNOWN_SINGLE:
-                        c.failing_input(KNOWN_SINGLE, '%s: %s' % (name, why[1]), replay); ndis += not c.match_known(KNOWN_SINGLE)
-                    elif why: bad = why
-                if not bad:
-                    bad = numeric_basis_checks(c, poly, e.topo, b, pou=e.pou, tag='convex')
-                if not bad:
-                    pending.append((e, b, dofs, supp, replay))
-            else:
-                bad = product_violation(c, e)
-            if not bad: bad = continuity_violation(c, function, e)
-            if not bad: bad = polyrepro_violation(c, e)
+            try:
+                bad, skip = zoo_entry_checks(c, function, poly, name, e, replay, pending)
+            except Exception as exc:
+                bad, skip = ('exception', 'checking the basis raises %s: %s' % (type(exc).__name__, str(exc)[:200])), False
+                replay['exception'] = traceback.format_exc()[-1500:]
+            if skip:
+                ndis += skip == 'violation'; continue
             nexp += 1
             if bad:
                 ndis += 1
@@ -1113,7 +1228,10 @@ def stream_bernstein(c, element):
     line = element.getsimplex(1)
     lines = []; meta = []
     for n in range(0, 9):
-        co = numpy.asarray(line.get_poly_coeffs('bernstein', degree=n))
+        try:
+            co = numpy.asarray(line.get_poly_coeffs('bernstein', degree=n))
+        except Exception as exc:
+            c.failing_input('bernstein-table:exception', 'get_poly_coeffs("bernstein", degree=%d) raises %s' % (n, type(exc).__name__), dict(op='get_poly_coeffs', degree=n)); continue
         for x in sorted(set(Fraction(c.rng.randint(0, 16), 16) for _ in range(3))):
             lines.append('bernstein|%d|%s' % (n, frac_str(x))); meta.append((n, x, co))
     ans = yield lines
@@ -1199,12 +1317,19 @@ def run(c):
                       'the while-loop of basis_spline that never terminates for a length-1 multiplicity vector is not executed (model answers "hang")']
     import warnings as _w
     _w.filterwarnings('ignore')
-    gen_ok = write_generated(c, element)
+    try:
+        gen_ok = write_generated(c, element)
+    except Exception as exc:
+        gen_ok = True
+        c.failing_input('bernstein-table:exception', 'get_poly_coeffs("bernstein") raises %s: %s' % (type(exc).__name__, str(exc)[:200]), dict(op='get_poly_coeffs', exception=traceback.format_exc()[-1500:]))
     broken = c.build_and_audit()
     c.log('proofs built and audited')
     if not gen_ok and not c.violations:
         broken.append('generated Bernstein tables are not integer valued: bernstein_table_pou no longer speaks about the real tables')
-    known_defect_regressions(c, mesh)
+    try:
+        known_defect_regressions(c, mesh)
+    except Exception as exc:
+        c.failing_input('corpus:exception', 'the regression corpus (periodic cubic spline on 2 elements, one-element subset) raises %s: %s' % (type(exc).__name__, str(exc)[:200]), dict(op='corpus', exception=traceback.format_exc()[-1500:]))
     quick = c.tier == 'quick'
     mods = (mesh, function, topology, element, transformseq)
     captured = []
